@@ -31,12 +31,11 @@ open Manticore Manticore.SmbIR Manticore.Gen.SmbCommands
     field. -/
 theorem non_mirror_commands :
     (commands.filter (fun c => !Mirror c)).map (·.name) =
-      ["FindCloseResponse", "FindResponse", "FindUniqueResponse", "LockAndReadResponse",
-       "LockingAndxRequest", "NegotiateRequest", "NegotiateResponse", "OpenAndxRequest",
-       "OpenAndxResponse", "QueryInformationResponse", "ReadRawRequest", "ReadResponse",
-       "RenameRequest", "SessionSetupAndxRequest", "SessionSetupAndxResponse",
-       "TransactionRequest", "WriteAndCloseRequest", "WriteAndUnlockRequest", "WriteAndxRequest",
-       "WriteMpxRequest", "WriteRawRequest", "WriteRequest"] := by decide +kernel
+      ["FindResponse", "FindUniqueResponse", "LockAndReadResponse", "LockingAndxRequest",
+       "NegotiateRequest", "NegotiateResponse", "OpenAndxRequest", "OpenAndxResponse",
+       "QueryInformationResponse", "ReadRawRequest", "RenameRequest", "SessionSetupAndxRequest",
+       "SessionSetupAndxResponse", "TransactionRequest", "WriteAndCloseRequest",
+       "WriteAndxRequest", "WriteMpxRequest", "WriteRawRequest", "WriteRequest"] := by decide +kernel
 
 /-- **every AndX command consumes its AndX block**: each of the 16 structures whose `IsAndX` returns
     true has the stanza (early returns on an empty parameter stream only, `AndX.Unmarshal` of the
@@ -204,9 +203,10 @@ theorem smb_reencode (c : Cmd) (hmem : c ∈ commands) (hm : Mirror c = true) (e
     WriteMpxRequest (and WriteAndxRequest): the last buffer read not followed by an advance of `offset`. -/
 theorem loop_mirror_commands :
     (commands.filter (fun c => MirrorLoops c && !Mirror c)).map (·.name) =
-      ["LockingAndxRequest", "OpenAndxRequest", "OpenAndxResponse", "QueryInformationResponse",
-       "ReadRawRequest", "SessionSetupAndxRequest", "SessionSetupAndxResponse",
-       "TransactionRequest", "WriteAndxRequest", "WriteMpxRequest", "WriteRawRequest"] := by decide +kernel
+      ["LockAndReadResponse", "LockingAndxRequest", "OpenAndxRequest", "OpenAndxResponse",
+       "QueryInformationResponse", "ReadRawRequest", "SessionSetupAndxRequest",
+       "SessionSetupAndxResponse", "TransactionRequest", "WriteAndxRequest", "WriteMpxRequest",
+       "WriteRawRequest"] := by decide +kernel
 
 /-- `MirrorLoops` extends `Mirror`: each of the 90 `Mirror` commands satisfies it -/
 theorem mirror_loops_extends : commands.all (fun c => !Mirror c || MirrorLoops c) = true := by decide +kernel
@@ -221,9 +221,8 @@ theorem mirror_loops_extends : commands.all (fun c => !Mirror c || MirrorLoops c
     the parameter block. -/
 theorem non_mirror_loops_commands :
     (commands.filter (fun c => !MirrorLoops c)).map (·.name) =
-      ["FindCloseResponse", "FindResponse", "FindUniqueResponse", "LockAndReadResponse",
-       "NegotiateRequest", "NegotiateResponse", "ReadResponse", "RenameRequest",
-       "WriteAndCloseRequest", "WriteAndUnlockRequest", "WriteRequest"] := by decide +kernel
+      ["FindResponse", "FindUniqueResponse", "NegotiateRequest", "NegotiateResponse",
+       "RenameRequest", "WriteAndCloseRequest", "WriteRequest"] := by decide +kernel
 
 /-- **C04, generic round trip over the loop fragment.**  As `mirror_roundtrip`, for every command whose
     regenerated programs satisfy `MirrorLoops`: the only statements outside the straight-line fragment are
@@ -362,6 +361,12 @@ example : decodeCmd Manticore.SmbCodecs.std cmd_ReadAndxRequest [] [0x01, 0x04, 
 example : encodeCmd Manticore.SmbCodecs.std cmd_LogoffAndxRequest [] = .ok [0x02, 0xFF, 0, 0, 0, 0, 0] := by
   decide +kernel
 
+
+/-- a nested value decoded from the *whole* data block right behind `offset = 0` (`c.Bytes.Unmarshal(rawDataContent)`:
+    ReadResponse, LockAndReadResponse, FindCloseResponse, WriteAndUnlockRequest) is read by the static predicates in the
+    normal form `rawDataContent[offset:]` (`SmbIR.normWhole`; the run does not see the difference: `go_normWhole`) -/
+example : Mirror cmd_ReadResponse = true ∧ Mirror cmd_FindCloseResponse = true ∧ Mirror cmd_WriteAndUnlockRequest = true ∧
+    MirrorLoops cmd_LockAndReadResponse = true := by decide +kernel
 
 /-! ### non-vacuity of the loop fragment -/
 
